@@ -122,6 +122,39 @@ theorem shutdown_requests (s : DState) (sg : Dispatcher.Sig) (s' : DState) (resp
     simp only [stepCore, h1, withCancel, beginCancel] at h
     simp at h; exact h.2.1.symm
 
+/-! ## No phase can wait forever -/
+
+/-- the environment events that are bound to happen once a unit's process group has been killed (or the process exits by
+    itself): the child is reaped, then its pipes reach end of file — or, if a descendant that left the group still holds them,
+    the leak timer fires; a unit waiting out a retry delay is continued (if it was stopped) and its timer runs out -/
+def escape (c : Cfg) (u : U) : List Ev :=
+  match u.phase with
+  | .running => [.childExit, .time c.leak]
+  | .terminating _ => [.childExit, .childExit, .time c.leak]
+  | .draining => [.time u.ls]
+  | .delay => [.req .otherCancel]
+  | .done => []
+
+/-- **nextest exits once its units' processes have exited**: from every state of a unit, in every phase (running, being
+    terminated, draining, waiting out a retry delay; stopped or not), the events that a killed process group is bound to produce
+    lead the unit to `done` — no wait loop depends on anything but a process exit, an end of file, a bounded (non-pausable)
+    leak timer, or a request the dispatcher has already sent.  (A unit in its retry delay leaves it on the cancellation request
+    itself: `delayed_unit_leaves`.) -/
+theorem unit_can_always_finish (c : Cfg) (u : U) : (run c u (escape c u)).1.phase = .done := by
+  unfold escape
+  cases hp : u.phase with
+  | done => simp [run, hp]
+  | delay => simp [run, step, onReq, hp]
+  | draining =>
+    simp only [run, step, advance, nextDue, hp]
+    simp [elapse, hp, fire]
+  | running =>
+    simp only [run, step, hp]
+    simp [advance, nextDue, elapse, fire]
+  | terminating w =>
+    simp only [run, step, hp]
+    simp [advance, nextDue, elapse, fire]
+
 /-! ## Non-vacuity -/
 example : (run { period := 1000, terminateAfter := none, grace := 300, leak := 100 } (U.spawn { period := 1000, terminateAfter := none, grace := 300, leak := 100 })
     [.time 50, .req (.shutdown (.once .hangup)), .time 100, .req (.shutdown .twice)]).2 = [.kill .hup, .kill .kill] := by decide
